@@ -78,17 +78,22 @@ CLAIMS = {
    technique="Lean 4 proof (parse well-formedness + decode-after-encode) + differential correspondence with Python json",
    design="6/C02"),
  'C07': dict(
-   text="Lean theorems: THE ROUND TRIP (round_trip, round_trip_values): for every canonical filter - any numbers of ids, authors and kinds, up to 32 tag "
-        "constraints named by distinct letters with UTF-8 values, any since/until/limit, members present or defaulted - as_json succeeds and from_json of its "
-        "text (any trailing input, any sufficient buffer with any prior contents) consumes exactly the text and yields exactly the bytes of from_parts, whose "
-        "accessors return the filter; both passes of the parser are covered (the first records positions and skips values, the second copies). Also: the "
-        "parser is total; whatever text it accepts, the bytes written are exactly the encoding of a sized filter which every accessor reads back "
-        "(accepted_is_wellformed); since/until literals are read exactly and rejected from 2^64 up; every stored kind is < 65536; a repeated tag letter is rejected "
-        "wherever the first occurrence was. Faithfulness on arbitrary texts and order independence are decided by correspondence: CST filter texts vs Python "
-        "json, member permutations (same acceptance and meaning, also for ill-formed member lists), all 52x52 ordered letter pairs exhaustively, integer "
-        "boundaries, parse(as_json(f)) byte-identical.",
-   note=PROOF_NOTE + "PARTIAL: order independence and faithfulness on non-canonical texts (whitespace, permuted members, unknown members) are not theorems; they rest on the correspondence (exhaustive over letter pairs, sampled elsewhere).",
-   technique="Lean 4 proof (two-pass parser followed member by member over the serializer's output; reader lemmas; duplicate detection) + differential correspondence with Python json; exhaustive letter-pair enumeration",
+   text="Lean theorems. ANY ORDER, ANY SEPARATORS, UNKNOWN MEMBERS (any_order_any_whitespace_unknown_members): a filter text that is a list of members - the six "
+        "NIP-01 members with values written as as_json writes them, tag members for letters, and unknown members whose value is ANY JSON value nested at most 64 deep "
+        "(an inductive grammar of strings with any escapes, numbers, literals, arrays, objects, any whitespace) - in ANY order, separated by any mix of whitespace and "
+        "commas, any whitespace round each colon, after any leading whitespace and followed by anything, with each NIP-01 member at most once and distinct tag letters "
+        "(all 52 allowed), is accepted into any buffer that holds the result, consumes up to the closing brace, and yields exactly the bytes of from_parts for the filter "
+        "the members denote (limit saturated at 2^32-1). ORDER INDEPENDENCE (order_independent, acceptance_order_independent, accepts_characterised, "
+        "repeated_member_refused): two texts whose member lists are permutations of each other are both accepted or both refused - the acceptance condition is 'values "
+        "well-formed, no NIP-01 member and no tag letter twice', which mentions no position, and a repeated member is refused wherever it stands - and when accepted they "
+        "denote the same ids, authors, kinds, since, until, limit and the same tag constraints up to their order. THE ROUND TRIP (round_trip, round_trip_values): for every "
+        "canonical filter as_json succeeds and from_json of its text consumes exactly the text and yields exactly the bytes of from_parts, whose accessors return the filter; "
+        "both passes of the parser are covered. Also: the parser is total; whatever text it accepts, the bytes written are exactly the encoding of a sized filter which every "
+        "accessor reads back (accepted_is_wellformed); since/until literals are read exactly and rejected from 2^64 up; every stored kind is < 65536. Correspondence + direct "
+        "oracle: CST filter texts vs Python json, member permutations (same acceptance and meaning, also for ill-formed member lists), all 52x52 ordered letter pairs "
+        "exhaustively, 33..52 distinct letters, integer boundaries, parse(as_json(f)) byte-identical.",
+   note=PROOF_NOTE + "PARTIAL: other spellings of the NIP-01 member VALUES (whitespace inside the id/kind/value arrays, upper-case hex, escapes in tag values other than those as_json writes) and order independence for member lists with ill-formed values are not theorems; they rest on the correspondence (exhaustive over letter pairs, sampled elsewhere). Unknown values nested deeper than 64 are refused by the code (depth limit of the C03 repair).",
+   technique="Lean 4 proof (member-loop invariant against an abstract filter state over any member order; inductive JSON grammar for skipped values; permutation invariance; two-pass parser lemmas) + differential correspondence with Python json; exhaustive letter-pair enumeration",
    design="6/C07"),
  'C08': dict(
    text="Lean theorems with SHA-256 (H) and BIP-340 verification (SV) as parameters: verify succeeds iff id = H(canon e) and SV pubkey id sig; every event "
